@@ -100,7 +100,7 @@ def _rdp(
         # Get point with max distance from line
         for i in range(start + 1, end):
             point_vector = curve[i] - curve[start]
-            distance = abs(np.cross(line_vector, point_vector)) / line_length
+            distance = abs(line_vector[0]*point_vector[1]-line_vector[1]*point_vector[0]) / line_length
             if distance > dmax:
                 dmax = distance
                 index = i
